@@ -2,7 +2,7 @@
     protocol object (protocol.py: connection callbacks, framing, dispatch, OPEN handling,
     send paths) and the abstract reactor's events.  Tied to the code by the exploration
     correspondence (harness/session.py). *)
-From YV Require Import lib.Base model.YWorld model.YProto gen.Consts gen.FsmGen.
+From YV Require Import lib.Base model.YWorld model.YProto gen.Consts gen.FsmGen model.YFraming.
 
 (** ---- decoders the session layer calls; parameters of the model ---- *)
 Inductive open_res :=
@@ -161,42 +161,16 @@ Definition dispatch (c : nat) (ty : N) (msg : bytes) (w : world) : bool * world 
   else if (ty =? c_MSG_ROUTEREFRESH) || (ty =? c_MSG_CISCOROUTEREFRESH) then route_refresh_received c ty msg w
   else (true, F_header_error c_ERR_MSG_HDR_BAD_MSG_TYPE (be 2 ty) w).
 
-Definition marker : bytes := repeat 255 16.
-
-(** BGP.parse_buffer on connection [c]: (go on?, world) *)
-Definition parse_buffer (c : nat) (w : world) : bool * world :=
-  let buf := c_buf (get_conn c w) in
-  if len buf <? c_HDR_LEN then (false, w)
-  else if negb (bytes_eqb (take 16 buf) marker)
-  then (false, F_header_error c_ERR_MSG_HDR_CONN_NOT_SYNC [] w)
-  else
-    let length := unbe (slice 16 18 buf) in
-    let ty := nth 18 buf 0 in
-    if (length <? c_HDR_LEN) || (c_MAX_LEN <? length)
-    then (false, F_header_error c_ERR_MSG_HDR_BAD_MSG_LEN (be 2 length) w)
-    else if len buf <? length then (false, w)
-    else
-      let r := dispatch c ty (slice 19 (N.to_nat length) buf) w in
-      if fst r
-      then (true, upd_conn c (set_c_buf (drop (N.to_nat length) buf)) (snd r))
-      else (false, snd r).
-
-(** the while loop of BGP.dataReceived (with the stop-after-close test) *)
-Fixpoint parse_loop (fuel : nat) (c : nat) (w : world) : world :=
-  match fuel with
-  | O => emit OFuel w
-  | S f =>
-      let r := parse_buffer c w in
-      if fst r
-      then if c_disc (get_conn c (snd r)) then snd r else parse_loop f c (snd r)
-      else snd r
-  end.
-
-Definition append_buf (data : bytes) (k : conn) : conn := set_c_buf (c_buf k ++ data) k.
+(** BGP.dataReceived on connection [c]: the generic framing machine (model/YFraming.v)
+    instantiated with the session reaction; the buffer is written back at the end *)
+Definition conn_closed_by_us (c : nat) (w : world) : bool := c_disc (get_conn c w).
 
 Definition data_received (c : nat) (data : bytes) (w : world) : world :=
-  let w := upd_conn c (append_buf data) w in
-  parse_loop (S (length (c_buf (get_conn c w)))) c w.
+  let buf := c_buf (get_conn c w) ++ data in
+  let r := frame_loop world (dispatch c) (fun sub d w => F_header_error sub d w)
+                      (conn_closed_by_us c) (S (length buf)) buf w in
+  let w := upd_conn c (set_c_buf (snd (fst r))) (fst (fst r)) in
+  if snd r then w else emit OFuel w.
 
 (** ---- send paths used by the REST API (through fsm.protocol) ---- *)
 Definition api_send_update (ok : bool) (b : bytes) (w : world) : world :=
